@@ -3,11 +3,6 @@ type nat =
 | O
 | S of nat
 
-(** val fst : ('a1 * 'a2) -> 'a1 **)
-
-let fst = function
-| (x, _) -> x
-
 (** val snd : ('a1 * 'a2) -> 'a2 **)
 
 let snd = function
@@ -30,13 +25,6 @@ type comparison =
 | Eq
 | Lt
 | Gt
-
-(** val compOpp : comparison -> comparison **)
-
-let compOpp = function
-| Eq -> Eq
-| Lt -> Gt
-| Gt -> Lt
 
 module Coq__1 = struct
  (** val add : nat -> nat -> nat **)
@@ -347,11 +335,6 @@ module Z =
   | Zpos x0 -> Zneg x0
   | Zneg x0 -> Zpos x0
 
-  (** val sub : z -> z -> z **)
-
-  let sub m n0 =
-    add m (opp n0)
-
   (** val mul : z -> z -> z **)
 
   let mul x y =
@@ -367,22 +350,6 @@ module Z =
        | Z0 -> Z0
        | Zpos y' -> Zneg (Coq_Pos.mul x' y')
        | Zneg y' -> Zpos (Coq_Pos.mul x' y'))
-
-  (** val compare : z -> z -> comparison **)
-
-  let compare x y =
-    match x with
-    | Z0 -> (match y with
-             | Z0 -> Eq
-             | Zpos _ -> Lt
-             | Zneg _ -> Gt)
-    | Zpos x' -> (match y with
-                  | Zpos y' -> Coq_Pos.compare x' y'
-                  | _ -> Gt)
-    | Zneg x' ->
-      (match y with
-       | Zneg y' -> compOpp (Coq_Pos.compare x' y')
-       | _ -> Lt)
 
   (** val sgn : z -> z **)
 
@@ -433,13 +400,6 @@ module Z =
          let (g, p) = Coq_Pos.ggcd a0 b0 in
          let (aa, bb) = p in ((Zpos g), ((Zneg aa), (Zneg bb))))
  end
-
-(** val zeq_bool : z -> z -> bool **)
-
-let zeq_bool x y =
-  match Z.compare x y with
-  | Eq -> true
-  | _ -> false
 
 (** val pow_pos : ('a1 -> 'a1 -> 'a1) -> 'a1 -> positive -> 'a1 **)
 
@@ -501,11 +461,6 @@ type q = { qnum : z; qden : positive }
 
 let inject_Z x =
   { qnum = x; qden = XH }
-
-(** val qeq_bool : q -> q -> bool **)
-
-let qeq_bool x y =
-  zeq_bool (Z.mul x.qnum (Zpos y.qden)) (Z.mul y.qnum (Zpos x.qden))
 
 (** val qplus : q -> q -> q **)
 
@@ -1265,84 +1220,6 @@ let loop_call i qs fs n0 =
           let (p0, x2) = p in
           let (x0, x1) = p0 in x0 :: (x1 :: (x2 :: (x3 :: [])))
         | S _ -> []))
-
-type pkdict = (nat * q) list
-
-(** val psihat_of : pkdict -> (nat -> q) -> q -> q **)
-
-let psihat_of pk sk0 x =
-  sumQ
-    (map (fun kp ->
-      qmult (qmult (snd kp) (sk0 (fst kp))) (qpow x (Z.of_nat (fst kp)))) pk)
-
-(** val psihatP_of : pkdict -> (nat -> q) -> q -> q **)
-
-let psihatP_of pk sk0 x =
-  sumQ
-    (map (fun kp ->
-      qmult (qmult (qmult (qnat (fst kp)) (snd kp)) (sk0 (fst kp)))
-        (qpow x (Z.sub (Z.of_nat (fst kp)) (Zpos XH)))) pk)
-
-(** val kave_of : pkdict -> q **)
-
-let kave_of pk =
-  sumQ (map (fun kp -> qmult (qnat (fst kp)) (snd kp)) pk)
-
-(** val epi_prob_discrete : pkdict -> q -> nat -> q **)
-
-let epi_prob_discrete pk p n0 =
-  let psi = psihat_of pk (fun _ -> { qnum = (Zpos XH); qden = XH }) in
-  let psiP = psihatP_of pk (fun _ -> { qnum = (Zpos XH); qden = XH }) in
-  let k_ave = psiP { qnum = (Zpos XH); qden = XH } in
-  qminus { qnum = (Zpos XH); qden = XH }
-    (psi
-      (iter n0 (fun alpha ->
-        qplus (qminus { qnum = (Zpos XH); qden = XH } p)
-          (qdiv (qmult p (psiP alpha)) k_ave))
-        (qminus { qnum = (Zpos XH); qden = XH } p)))
-
-(** val attack_rate_discrete : pkdict -> q -> q option -> nat -> q **)
-
-let attack_rate_discrete pk p rho n0 =
-  let go = fun r ->
-    let sk0 = fun _ -> qminus { qnum = (Zpos XH); qden = XH } r in
-    let ph = psihat_of pk sk0 in
-    let php = psihatP_of pk sk0 in
-    let phiS0 = qdiv (php { qnum = (Zpos XH); qden = XH }) (kave_of pk) in
-    attack_rate_discrete_loop p { qnum = Z0; qden = XH } phiS0 php ph n0
-  in
-  (match rho with
-   | Some r ->
-     if qeq_bool r { qnum = Z0; qden = XH }
-     then epi_prob_discrete pk p n0
-     else go r
-   | None -> epi_prob_discrete pk p n0)
-
-(** val attack_rate_cts_time : pkdict -> q -> q -> q option -> nat -> q **)
-
-let attack_rate_cts_time pk tau gamma rho n0 =
-  let r = match rho with
-          | Some r -> r
-          | None -> { qnum = Z0; qden = XH } in
-  let sk0 = fun _ -> qminus { qnum = (Zpos XH); qden = XH } r in
-  let ph = psihat_of pk sk0 in
-  let php = psihatP_of pk sk0 in
-  let phiS0 = qdiv (php { qnum = (Zpos XH); qden = XH }) (kave_of pk) in
-  attack_rate_cts_time_loop gamma tau { qnum = Z0; qden = XH } phiS0 php ph n0
-
-(** val ebcm_discrete_row :
-    q -> (q -> q) -> (q -> q) -> q -> q -> q -> q -> nat -> ((q * q) * q) * q **)
-
-let ebcm_discrete_row n0 psihat psihatPrime p phiS0 phiR0 r0 t =
-  eBCM_discrete_loop r0 n0 psihat p phiR0 phiS0 psihatPrime t
-
-(** val ebcm_discrete_rows :
-    q -> (q -> q) -> (q -> q) -> q -> q -> q -> q -> nat ->
-    (((q * q) * q) * q) list **)
-
-let ebcm_discrete_rows n0 psihat psihatPrime p phiS0 phiR0 r0 nsteps =
-  map (ebcm_discrete_row n0 psihat psihatPrime p phiS0 phiR0 r0)
-    (seq O (S nsteps))
 
 (** val glue_types : n result **)
 
